@@ -15,3 +15,6 @@ cd /verif && ./check "$PROP" "$TIER" 2>&1 | grep -E "^(VIOLATION|KNOWN|HARNESS|C
 cd /repo && git reset -q --hard HEAD && git clean -fdq src unimock_macros tests 2>/dev/null
 # the run above rewrote evidence/<prop>.json from a patched tree: put the committed (clean) file back
 git -C /verif checkout -q -- "evidence/$PROP.json" 2>/dev/null
+# ... and left sim/target built against the patched tree: rebuild against the reverted one, so that nobody
+# who runs simctl directly afterwards looks at a stale binary (./check always rebuilds by itself)
+(cd /verif/sim && CARGO_NET_OFFLINE=true RUSTFLAGS="--cfg unimock_verif" cargo build --release --offline >/dev/null 2>&1)
